@@ -96,7 +96,9 @@ static bool run_history(const std::vector<int>& h, int nsun, bool report) {
       case MOVE_ASSIGN_USED: {
         Problem q = m.P; q.d = (nsun == 2 ? 3 : 2); q.nx = 3; q.nsc = 2; for (int b = 0; b < 5; b++) q.sw[b] = true;
         std::unique_ptr<Probe> n(new Probe(q, 5.0));
-        n->Set_rel_error(1e-8); n->Set_abs_error(1e-8); n->Set_h(1e-3); n->set_flat(probe_state(q, 1)); n->Evolve(0.2);
+        // every integrator setting of the assignee differs from the moved solver's and is loose: a setting that is not carried over by the move shows in the next segment
+        n->Set_rel_error(1e-1); n->Set_abs_error(1e-1); n->Set_h(0.5); n->Set_NumSteps(3); n->Set_GSL_step(gsl_odeiv2_step_rk2); n->Set_h_max(0.9); n->set_flat(probe_state(q, 1)); n->Evolve(0.2);
+        n->Set_AdaptiveStep(!m.adaptive);
         *n = std::move(*cur); cur->P.kappa = 77; cur.reset(); cur = std::move(n); cur->log = CallLog();
       } break;
       case REINIT: {
